@@ -866,3 +866,167 @@ Proof.
   intros x Hx. apply in_app_or in Hx. destruct Hx as [[<-|[]]|Hx]; [|apply Hs; exact Hx].
   apply (run_to_weaken zbare zbare zbare zbb); [intros st H; exact H|apply zbare_zbb|apply run_to_nil].
 Qed.
+
+Lemma run_commands_function bin body :
+  tame bin = true -> run_to zbare zbare body -> run_to zbare zbare (commands_function bin body).
+Proof.
+  intros Hb Hbody. unfold commands_function.
+  assert (Hdd : tame (space_to_dd bin) = true) by (apply tame_replace_byte; [reflexivity|exact Hb]).
+  apply (run_to_app zbare zbare zbare); [|apply (run_to_app zbare zbare zbare); [exact Hbody|]]; apply run_to_zx.
+  - pchunk zbare lit_pres. pchunk zbare ltac:(apply pres_tame_bare; exact Hdd). pchunk zbare lit_pres. pchunk zbare lit_pres.
+    pchunk zbare lit_pres. pchunk zbare ltac:(apply pres_tame_bare; exact Hdd). pchunk zbare lit_pres. pchunk zbare lit_pres.
+    lit_pres.
+  - pchunk zbare lit_pres. pchunk zbare lit_pres. pchunk is_sq lit_pres.
+    pchunk is_sq ltac:(apply pres_tame_sq; exact Hb). pchunk zbare lit_pres. pchunk zbare lit_pres. lit_pres.
+Qed.
+
+Lemma run_zsubcommand_details c d det : ztame_cmd c = true -> zsubcommand_details c d = Some det -> run_to zbare zbare det.
+Proof.
+  intros Ht. unfold zsubcommand_details. destruct (c_bin c) as [b|] eqn:Eb; [|discriminate].
+  destruct (all_subcommands c) as [l|]; [|discriminate].
+  match goal with |- match map_opt ?F ?L with _ => _ end = _ -> _ => destruct (map_opt F L) as [rest|] eqn:Er; [|discriminate] end.
+  intros E; apply Some_inj in E; subst det. apply zjoin_run_bare. intros x [<-|Hx].
+  - apply run_commands_function; [exact (ztame_bin c b Ht Eb)|apply run_subcommands_of; exact Ht].
+  - apply map_opt_Forall2 in Er. destruct (Forall2_in_r _ _ _ _ Er Hx) as (bn & _ & Hf).
+    destruct (parser_of_d c d bn) as [[m md]|] eqn:Em; [|discriminate]. apply Some_inj in Hf. subst x.
+    pose proof (parser_of_d_tame _ _ _ _ _ Ht Em) as Htm.
+    destruct (parser_of_sound _ _ _ (parser_of_d_inv _ _ _ _ _ Em)) as [_ Hbin].
+    apply run_commands_function; [|apply run_subcommands_of; exact Htm].
+    unfold bin_or_default in Hbin. destruct (c_bin m) as [mb|] eqn:Emb; [|subst bn; reflexivity].
+    subst bn. exact (ztame_bin m mb Htm Emb).
+Qed.
+
+(** a comment, or between words: where the [#compdef] line leaves the lexer while the bin name is read *)
+Definition zcb (st : zstate) : bool := match st with ZC | ZB | ZW => true | _ => false end.
+Lemma pres_tame_zcb s : tame s = true -> pres zcb zcb s.
+Proof.
+  induction s as [|c s IH]; intros H; [apply pres_nil|].
+  cbn [tame forallb] in H. apply andb_true_iff in H. destruct H as [Hc Hs].
+  intros st Hst. cbn [final]. apply (IH Hs). destruct st; try discriminate.
+  - assert (Hb : zbare (fst (sh_step ZB c)) = true) by (apply (proj1 (tame_byte_sh c Hc)); reflexivity).
+    destruct (fst (sh_step ZB c)); try discriminate; reflexivity.
+  - assert (Hb : zbare (fst (sh_step ZW c)) = true) by (apply (proj1 (tame_byte_sh c Hc)); reflexivity).
+    destruct (fst (sh_step ZW c)); try discriminate; reflexivity.
+  - cbn [sh_step]. destruct (c =? 10); reflexivity.
+Qed.
+
+Lemma run_script_head name : tame name = true ->
+  pres zbare zbare (lit "#compdef " ++ name ++ lf ++ lf ++
+                     lit "autoload -U is-at-least" ++ lf ++ lf ++
+                     lit "_" ++ name ++ lit "() {" ++ lf ++
+                     lit "    typeset -A opt_args" ++ lf ++
+                     lit "    typeset -a _arguments_options" ++ lf ++
+                     lit "    local ret=1" ++ lf ++ lf ++
+                     lit "    if is-at-least 5.2; then" ++ lf ++
+                     lit "        _arguments_options=(-s -S -C)" ++ lf ++
+                     lit "    else" ++ lf ++
+                     lit "        _arguments_options=(-s -C)" ++ lf ++
+                     lit "    fi" ++ lf ++ lf ++
+                     lit "    local context curcontext=""$curcontext"" state line" ++ lf ++
+                     lit "    ").
+Proof.
+  intros Hn. pchunk zcb lit_pres. pchunk zcb ltac:(apply pres_tame_zcb; exact Hn). pchunk zbare lit_pres.
+  pchunk zbare lit_pres. pchunk zbare lit_pres. pchunk zbare lit_pres. pchunk zbare lit_pres. pchunk zbare lit_pres.
+  pchunk zbare ltac:(apply pres_tame_bare; exact Hn). lit_pres.
+Qed.
+
+Lemma run_script_tail name : tame name = true ->
+  pres zbare zbare (lf ++ lf ++
+                    lit "if [ ""$funcstack[1]"" = ""_" ++ name ++ lit """ ]; then" ++ lf ++
+                    lit "    _" ++ name ++ lit " ""$@""" ++ lf ++
+                    lit "else" ++ lf ++
+                    lit "    compdef _" ++ name ++ lit " " ++ name ++ lf ++
+                    lit "fi" ++ lf).
+Proof.
+  intros Hn. pchunk zbare lit_pres. pchunk zbare lit_pres. pchunk is_dq lit_pres.
+  pchunk is_dq ltac:(apply pres_tame_dq; exact Hn). pchunk zbare lit_pres. pchunk zbare lit_pres. pchunk zbare lit_pres.
+  pchunk zbare ltac:(apply pres_tame_bare; exact Hn). pchunk zbare lit_pres. pchunk zbare lit_pres. pchunk zbare lit_pres.
+  pchunk zbare lit_pres. pchunk zbare lit_pres.
+  pchunk zbare ltac:(apply pres_tame_bare; exact Hn). pchunk zbare lit_pres.
+  pchunk zbare ltac:(apply pres_tame_bare; exact Hn). lit_pres.
+Qed.
+
+(** for a tame tree every slot of the file is met inside a single-quoted word, whatever the texts; the file ends between words *)
+Theorem zsh_file_runs c d ps :
+  ztame_cmd c = true -> zsh_pieces c d = Some ps -> exists st, zrun ZB ps = Some st /\ zbare st = true.
+Proof.
+  intros Ht. unfold zsh_pieces. destruct (c_bin c) as [name|] eqn:Eb; [|discriminate].
+  destruct (get_args_of c d None) as [ia|] eqn:Ea; [|discriminate].
+  destruct (get_subcommands_of (depth c) c d) as [sc|] eqn:Es; [|discriminate].
+  destruct (zsubcommand_details c d) as [de|] eqn:Ed; [|discriminate].
+  intros E; apply Some_inj in E; subst ps. pose proof (ztame_bin c name Ht Eb) as Hn.
+  assert (R : run_to zbare zbare
+    ([Zx (lit "#compdef " ++ name ++ lf ++ lf ++
+                     lit "autoload -U is-at-least" ++ lf ++ lf ++
+                     lit "_" ++ name ++ lit "() {" ++ lf ++
+                     lit "    typeset -A opt_args" ++ lf ++
+                     lit "    typeset -a _arguments_options" ++ lf ++
+                     lit "    local ret=1" ++ lf ++ lf ++
+                     lit "    if is-at-least 5.2; then" ++ lf ++
+                     lit "        _arguments_options=(-s -S -C)" ++ lf ++
+                     lit "    else" ++ lf ++
+                     lit "        _arguments_options=(-s -C)" ++ lf ++
+                     lit "    fi" ++ lf ++ lf ++
+                     lit "    local context curcontext=""$curcontext"" state line" ++ lf ++
+                     lit "    ")]
+                ++ ia ++ sc
+                ++ [Zx (lf ++ lit "}" ++ lf ++ lf)]
+                ++ de
+                ++ [Zx (lf ++ lf ++
+                        lit "if [ ""$funcstack[1]"" = ""_" ++ name ++ lit """ ]; then" ++ lf ++
+                        lit "    _" ++ name ++ lit " ""$@""" ++ lf ++
+                        lit "else" ++ lf ++
+                        lit "    compdef _" ++ name ++ lit " " ++ name ++ lf ++
+                        lit "fi" ++ lf)])).
+  { apply (run_to_app zbare zbare zbare); [apply run_to_zx, run_script_head; exact Hn|].
+    apply (run_to_app zbare zbare zbare); [eapply run_get_args_of; eassumption|].
+    apply (run_to_app zbare zbare zbare); [eapply run_get_subcommands_of; eassumption|].
+    apply (run_to_app zbare zbare zbare); [apply run_to_zx; lit_pres|].
+    apply (run_to_app zbare zbare zbare); [eapply run_zsubcommand_details; eassumption|].
+    apply run_to_zx, run_script_tail; exact Hn. }
+  exact (R ZB eq_refl).
+Qed.
+
+(** ---- the theorems ---- *)
+(** every description text of the whole file is read by zsh's word lexer inside a single-quoted word only: the
+    token skeleton of the file is that of the fixed text alone, the level-1 payload is the fixed payload plus,
+    per slot, the level-1 image of the text; the file ends between words *)
+Theorem zsh_texts_literal c d :
+  ztame_cmd c = true -> forall ps, zsh_pieces c d = Some ps ->
+  exists s, zsh_script c d = Some s /\
+    skeleton (events sh_step ZB s) = zpskel ZB ps /\ lits (events sh_step ZB s) = zplits ZB ps /\
+    zbare (final sh_step ZB s) = true.
+Proof.
+  intros Ht ps Hp. destruct (zsh_file_runs c d ps Ht Hp) as (st & R & B).
+  destruct (zrun_events ps ZB st R) as (F & S & L).
+  unfold zsh_script. rewrite Hp. eexists; split; [reflexivity|]. rewrite F. auto.
+Qed.
+
+(** the token skeleton (and the final lexer state) of the ENTIRE generated file is the same for any two
+    assignments of description texts with the same presence shape *)
+Theorem zsh_text_invariance c d1 d2 s1 :
+  ztame_cmd c = true -> erase_desc d1 = erase_desc d2 -> zsh_script c d1 = Some s1 ->
+  exists s2, zsh_script c d2 = Some s2 /\
+    skeleton (events sh_step ZB s1) = skeleton (events sh_step ZB s2) /\
+    final sh_step ZB s1 = final sh_step ZB s2.
+Proof.
+  intros Ht He H1. unfold zsh_script in H1. destruct (zsh_pieces c d1) as [p1|] eqn:E1; [|discriminate].
+  apply Some_inj in H1. subst s1.
+  pose proof (zsh_pieces_erase c d1) as X1. pose proof (zsh_pieces_erase c d2) as X2.
+  rewrite He, E1 in X1. rewrite X1 in X2. destruct (zsh_pieces c d2) as [p2|] eqn:E2; [|discriminate].
+  cbn [option_map'] in X2. apply Some_inj in X2.
+  destruct (zsh_file_runs c d1 p1 Ht E1) as (st1 & R1 & _). destruct (zsh_file_runs c d2 p2 Ht E2) as (st2 & R2 & _).
+  destruct (zrun_events p1 ZB st1 R1) as (F1 & S1 & _). destruct (zrun_events p2 ZB st2 R2) as (F2 & S2 & _).
+  unfold zsh_script. rewrite E2. eexists; split; [reflexivity|].
+  rewrite S1, S2, F1, F2. rewrite <- (zpskel_perase p1), <- (zpskel_perase p2), X2.
+  split; [reflexivity|].
+  rewrite <- (zrun_perase p1), X2, zrun_perase, R2 in R1. inversion R1. reflexivity.
+Qed.
+
+(** the pair of files the harness generates for the oracle (texts as given / innocuous text of the same emptiness) is an instance *)
+Theorem zsh_adversarial_innocuous c d s1 :
+  ztame_cmd c = true -> zsh_script c d = Some s1 ->
+  exists s2, zsh_script c (innocuous_desc d) = Some s2 /\
+    skeleton (events sh_step ZB s1) = skeleton (events sh_step ZB s2) /\
+    final sh_step ZB s1 = final sh_step ZB s2.
+Proof. intros Ht H. apply (zsh_text_invariance c d (innocuous_desc d) s1 Ht); [symmetry; apply erase_innocuous|exact H]. Qed.
